@@ -6,7 +6,7 @@ tier="$1"; shift
 bad=0
 for s in "$@"; do
   for i in 01 02 03 04 05 06 07 08 09 10 11 12 13 14 15 16 17 18 19 20; do
-    out=$(mktemp -d /tmp/soak-out.XXXXXX); wk=$(mktemp -d /tmp/soak-wk.XXXXXX)
+    out=$(mktemp -d /tmp/soak-out.XXXXXX); wk=$(mktemp -d /tmp/soak-wk.XXXXXX); chmod 755 $wk
     t0=$(date +%s)
     VERIF_SEED=$s VERIF_OUT=$out VERIF_WORK=$wk "$V/check" C$i --tier "$tier" > $out/log 2>&1
     rc=$?
